@@ -145,7 +145,9 @@ func (o *c02rOp) Desc() string {
 }
 
 // c02rDHCP is the DHCP side of the storage: a lease table.
-type c02rDHCP struct{ tbl map[netip.Addr]net.HardwareAddr }
+type c02rDHCP struct {
+	tbl map[netip.Addr]net.HardwareAddr
+}
 
 func (d *c02rDHCP) Leases() []*dhcpsvc.Lease   { return nil }
 func (d *c02rDHCP) HostByIP(netip.Addr) string { return "" }
